@@ -151,3 +151,5 @@ pub open spec fn wd_pair(w: Seq<(RewardAddress, (Coin, Option<ScriptWitnessType>
 pub open spec fn prop_deposits(s: Seq<(VotingProposal, Option<ScriptWitnessType>)>, n: int) -> nat decreases n { if n <= 0 { 0 } else { prop_deposits(s, n - 1) + s[n - 1].0.deposit.0 as nat } }
 pub proof fn lemma_prop_deposits_mono(s: Seq<(VotingProposal, Option<ScriptWitnessType>)>, a: int, b: int) requires 0 <= a <= b ensures prop_deposits(s, a) <= prop_deposits(s, b) decreases b - a
 { if a < b { lemma_prop_deposits_mono(s, a, b - 1); } }
+/// C10 / C18 (votes): a voter's entry carries a script witness only if the voter is a script credential
+pub open spec fn vote_wits_ok(s: Seq<(Voter, VoterVotes)>) -> bool { forall|i: int| 0 <= i < s.len() ==> ((#[trigger] s[i]).1.script_witness is Some ==> v_is_script(s[i].0)) }
